@@ -2,6 +2,7 @@ import RactorModel.Lemmas.OutPortV1
 import RactorModel.Lemmas.OutPortV2
 import RactorModel.Lemmas.OutPortV2Acct
 import RactorModel.Lemmas.OutPortBatch
+import RactorModel.Lemmas.OutPortDrop
 import RactorModel.Extracted
 
 /-!
@@ -251,6 +252,129 @@ theorem v1_ok [BEq O] [LawfulBEq O] (cap : Nat) (ops : List (Op1 M O)) :
     exact this
   · left; simpa using hc
 
+/-! ## dropping the port (`V2c` / `V1c`: the handle — the last sender — is dropped while the
+port task / the forwarding tasks still have queued publications) -/
+
+/-- (simulation) The inner machine of any run with a drop is a run of the plain port machine:
+every theorem above (order, no duplicates, no gaps, removal only of dead subscribers, …)
+holds verbatim of ports that are dropped at an arbitrary moment. -/
+theorem v2_drop_simulation (ad : Bool) (ops : List (Op2c M O)) :
+    ∃ ops', ((V2c.init M O ad).run ops).base = (V2.init M O ad).run ops' :=
+  V2c.run_base _ ops
+
+/-- (order / no duplicates / no gaps, with drops) -/
+theorem v2_drop_prefix (ad : Bool) (ops : List (Op2c M O)) :
+    let st := ((V2c.init M O ad).run ops).base
+    ∀ s ∈ st.all, s.got = s.offered.filterMap s.conv ∧ s.offered <+: st.after s :=
+  (V2c.inv_run ad ops).prefix
+
+/-- (everything published before the drop is delivered) The port task finishes only after the
+drop, with the channel empty and the last batch dispatched; at that moment every subscription
+still registered has received the image of ALL publications made after its subscription
+point, in order — and, for the public configuration, so has every subscription ever made
+whose subscriber has not exited. -/
+theorem v2_drop_delivers_all (ops : List (Op2c M O))
+    (hfin : ((V2c.init M O true).run ops).finished = true) :
+    let st := (V2c.init M O true).run ops
+    st.closed = true ∧ st.base.queue = [] ∧
+      (∀ s ∈ st.base.live, s.got = (st.base.after s).filterMap s.conv) ∧
+      ∀ s ∈ st.base.all, s.actor ∉ st.base.dead → s.got = (st.base.after s).filterMap s.conv := by
+  intro st
+  have hok := V2c.finOk_run true ops hfin
+  have hinv : Inv st.base := V2c.inv_run true ops
+  have hq : st.base.queue = [] := by
+    have := hok.2
+    simp only [V2.idle, Bool.and_eq_true, List.isEmpty_iff] at this
+    exact this.1
+  refine ⟨hok.1, hq, hinv.exact hok.2, ?_⟩
+  intro s hs hal
+  rcases all_idle hok.2 hs with hl | hg
+  · exact hinv.exact hok.2 s hl
+  · exact absurd (hinv.removed (V2c.run_allowDup true ops) s hg).1 hal
+
+/-- (never delivers afterwards) Once the port task has finished, no operation whatsoever
+changes any subscription record or makes a converter call: nothing is delivered after the
+task ended, in particular not to subscribers that stopped later. -/
+theorem v2_drop_final (ad : Bool) (ops : List (Op2c M O)) (op : Op2c M O)
+    (hfin : ((V2c.init M O ad).run ops).finished = true) :
+    let st := (V2c.init M O ad).run ops
+    (st.step op).finished = true ∧ (st.step op).base.all = st.base.all ∧
+      (st.step op).base.hist = st.base.hist ∧ (st.step op).task.2 = none :=
+  V2c.finished_frozen _ (V2c.finOk_run ad ops) hfin op
+
+/-- (progress after the drop) Closed and not finished: the next task step finishes the task
+or strictly decreases the lexicographic measure (entries in the channel, program-counter
+rank, work left in the batch); nothing can be enqueued any more. -/
+theorem v2_drop_progress (st : V2c M O) (hc : st.closed = true) (hf : st.finished = false) :
+    st.task.1.finished = true ∨
+      (st.task.1.finished = false ∧ st.task.1.closed = true ∧
+        lexClose st.task.1.base.closeMeasure st.base.closeMeasure) :=
+  V2c.task_progress st hc hf
+
+/-- (the port task terminates) After the drop the port task ends within finitely many of its
+own steps, from ANY state (whatever the subscribers do meanwhile costs no step). -/
+theorem v2_drop_terminates (st : V2c M O) (hc : st.closed = true) :
+    ∃ n, (V2c.tasks n st).finished = true :=
+  V2c.terminates st hc
+
+theorem v1_drop_simulation (cap : Nat) (ops : List (Op1c M O)) :
+    ∃ ops', ((V1c.init M O cap).run ops).base = (V1.init M O cap).run ops' :=
+  V1c.run_base _ ops
+
+/-- (what is delivered when the default port is dropped) A forwarding task returns on `Closed`
+only after the drop, with its subscriber never found dead, and having consumed the whole
+ring: what it delivered is exactly the converter image of the publications after its
+subscription point that it did not skip by lag (`pick mask`), it ends with the image of the
+last `cap` publications, and if it never lagged it is the image of ALL of them, in order. -/
+theorem v1_drop_delivers (cap : Nat) (ops : List (Op1c M O)) (i : Nat)
+    (hi : i ∈ ((V1c.init M O cap).run ops).finished) :
+    let st := (V1c.init M O cap).run ops
+    st.closed = true ∧ ∃ f, st.base.fwds[i]? = some f ∧ f.ended = false ∧
+      f.cursor = st.base.log.length ∧
+      f.got = (pick f.mask (st.base.after f)).filterMap f.conv ∧
+      ((st.base.after f).drop ((st.base.after f).length - cap)).filterMap f.conv <:+ f.got ∧
+      ((∀ x ∈ f.mask, x = none) → f.got = (st.base.after f).filterMap f.conv) := by
+  intro st
+  obtain ⟨hc, f, hf, he, hcur⟩ := V1c.finOk_run cap ops i hi
+  have hok := V1c.inv_run cap ops f (List.mem_of_getElem? hf)
+  have hcap : st.base.cap = cap := V1c.run_cap cap ops
+  refine ⟨hc, f, hf, he, hcur, ?_, ?_, ?_⟩
+  · have := hok.hGot
+    simp only [GotOk, he, Bool.false_eq_true, ↓reduceIte] at this
+    rw [this, hok.readAfter]; rfl
+  · have := hok.recent he hcur
+    rw [hcap] at this
+    exact this
+  · intro hn; exact hok.noLagAll hn he hcur
+
+/-- (never delivers afterwards) A forwarding task that returned on `Closed` is inert: none of
+its iterations does anything and no operation changes its subscription record. -/
+theorem v1_drop_final (cap : Nat) (ops : List (Op1c M O)) (i : Nat) (op : Op1c M O)
+    (hi : i ∈ ((V1c.init M O cap).run ops).finished) :
+    let st := (V1c.init M O cap).run ops
+    i ∈ (st.step op).finished ∧ (st.step op).base.fwds[i]? = st.base.fwds[i]? ∧
+      st.task i = (st, none) :=
+  V1c.finished_frozen _ (V1c.finOk_run cap ops) i hi op
+
+/-- (progress after the drop) An iteration of a live forwarding task of a dropped port returns
+(on `Closed`, or on a dead subscriber) or moves its cursor strictly forward, and the ring no
+longer grows. -/
+theorem v1_drop_progress (st : V1c M O) (i : Nat) (f : Fwd M O) (hc : st.closed = true)
+    (hfi : st.base.fwds[i]? = some f) (hnf : st.finished.contains i = false) (he : f.ended = false) :
+    i ∈ (st.task i).1.finished ∨
+      ((st.task i).1.finished = st.finished ∧ (st.task i).1.closed = true ∧
+        (st.task i).1.base.log = st.base.log ∧
+        ∃ f', (st.task i).1.base.fwds[i]? = some f' ∧ (f'.ended = true ∨ f.cursor < f'.cursor)) :=
+  V1c.task_progress st i f hc hfi hnf he
+
+/-- (every forwarding task terminates) After the drop each forwarding task returns within
+finitely many of its own iterations, at every reachable state. -/
+theorem v1_drop_terminates (cap : Nat) (ops : List (Op1c M O)) (i : Nat)
+    (hc : ((V1c.init M O cap).run ops).closed = true)
+    (hi : i < ((V1c.init M O cap).run ops).base.fwds.length) :
+    ∃ n, (V1c.tasks n ((V1c.init M O cap).run ops) i).taskDone i = true :=
+  V1c.terminates _ (V1c.inv_run cap ops) hc i hi
+
 /-! ## non-vacuity: concrete runs -/
 
 /-- v2: two subscribers, the second subscribing after message 1; a converter dropping odd
@@ -272,6 +396,26 @@ def demo1 : V1 Nat Nat :=
 
 example : demo1.fwds.map (fun f => (f.got, f.mask, f.cursor)) =
     [([4, 5, 6, 7], [some 7, some 7, some 7, none, none, none, none], 7)] := by decide
+
+/-- v2 with a drop: three publications are still in the channel when the port is dropped;
+the task delivers them all, then finishes; a later publish is impossible / changes nothing. -/
+def demo2c : V2c Nat Nat :=
+  (V2c.init Nat Nat true).run
+    ([.op (.subscribe 7 some), .op (.publish 1), .op (.publish 2), .op (.publish 3), .drop, .op (.publish 9)]
+      ++ List.replicate 12 (.op .task))
+
+example : demo2c.finished = true := by decide
+example : demo2c.base.live.map (fun s => (s.key, s.got)) = [(0, [1, 2, 3])] := by decide
+
+/-- v1 with a drop: ring of 4, five publications, then the port is dropped; the detached task
+lags once (loses 1), delivers 2..5 and returns on `Closed`. -/
+def demo1c : V1c Nat Nat :=
+  (V1c.init Nat Nat 4).run
+    ([.op (.subscribe 7 some)] ++ (List.range 5).map (fun m => .op (.publish (m + 1))) ++ [.drop] ++
+      List.replicate 7 (.op (.task 0)))
+
+example : demo1c.finished = [0] := by decide
+example : demo1c.base.fwds.map (fun f => (f.got, f.ended)) = [([2, 3, 4, 5], false)] := by decide
 
 #print axioms C16.extracted_maxBatch
 #print axioms C16.extracted_capacity
@@ -296,5 +440,16 @@ example : demo1.fwds.map (fun f => (f.got, f.mask, f.cursor)) =
 #print axioms C16.v1_frame
 #print axioms C16.v1_publish_nonblocking
 #print axioms C16.v1_ok
+#print axioms C16.v2_drop_simulation
+#print axioms C16.v2_drop_prefix
+#print axioms C16.v2_drop_delivers_all
+#print axioms C16.v2_drop_final
+#print axioms C16.v2_drop_progress
+#print axioms C16.v2_drop_terminates
+#print axioms C16.v1_drop_simulation
+#print axioms C16.v1_drop_delivers
+#print axioms C16.v1_drop_final
+#print axioms C16.v1_drop_progress
+#print axioms C16.v1_drop_terminates
 
 end C16
